@@ -97,8 +97,8 @@ def run(ctx):
         return
     quick = ctx.tier == "quick"
     runs = [("corpus", ["-mode", "corpus", "-flagsets", 8]),
-            ("random", ["-mode", "random", "-n", 90 if quick else 1500, "-flagsets", 2 if quick else 8]),
-            ("edge", ["-mode", "edge", "-n", 54 if quick else 1000, "-flagsets", 2 if quick else 8])]
+            ("random", ["-mode", "random", "-n", 90 if quick else 600, "-flagsets", 2 if quick else 8]),
+            ("edge", ["-mode", "edge", "-n", 54 if quick else 400, "-flagsets", 2 if quick else 8])]
     terms, jsons = [], []
     # corpus files first: minimised case descriptions kept from earlier disagreements / mutations
     cdir = os.path.join(vlib.VERIF, "corpus", "C20")
